@@ -137,6 +137,13 @@ Theorem C07_choice_condition : forall opt m, wf_choice_master m = true -> 2 <= l
 Proof. exact choice_stable_wf. Qed.
 Print Assumptions C07_choice_condition.
 
+(* since the repair of choice_converters.fetch (the complete list of alternatives without a star is
+   not the a+b form) the restriction on "+" is not needed: names may contain "+" *)
+Theorem C07_choice_condition_any_names : forall opt m, wf_choice_master m = true -> 2 <= length m ->
+  choice_stable opt m.
+Proof. exact choice_stable_wf_any_names. Qed.
+Print Assumptions C07_choice_condition_any_names.
+
 (* ---------------------------------------------------------------- outside the domain: refutations *)
 (* F7a (the design-time witness, canon table recorded from the library):
    master  s .multiple=True { d = yes .type=bool .multiple=True },  source  s { d = no }.
